@@ -19,6 +19,13 @@ C09 — cross-namespace isolation.
     `auth_url_findbackend_bypass_old`, `gateway_stale_permission_old`), each paired with the
     repaired model's answer on the same input.
   * `file_form_unchecked`: the known finding — a `file://` value is answered before any permission.
+  * the `oauth` site (the auth backend is found by lookup of the `/oauth2` path in the host/path table,
+    no key applies): `oauth_backend_same_namespace`, `findBackend_eq_find_ownPaths` (the lookup is a
+    function of the declaring namespace's own paths), `oauth_independent_of_foreign`,
+    `oauth_lookup_noninterference`, `oauth_found_order_irrelevant` (Go map order), and for the whole
+    site `oauth_site_same_namespace`, `oauth_spec_holds`, `oauth_site_noninterference`,
+    `oauth_site_independent_of_foreign` — all tables, namespaces, prefixes, configurations;
+    `oauth_seeded_picks_foreign`: the seeded variant C09e (hostname first, no namespace test) on `decide`.
 -/
 namespace HapVerif.C09
 
@@ -334,6 +341,189 @@ theorem file_form_unchecked (g : Getter) (hg : g = .tls ∨ g = .pw) (b : Bits) 
     intro h; exact absurd rfl (hp _ h)
   rcases hg with rfl | rfl <;> simp [getterResolve, hgcp]
 
+/-! ### the `oauth` site: the auth backend is found by LOOKUP in the host/path table
+
+No value names a resource here and the cache is not asked, so no permission key applies
+(`buildOAuth` has no `Bits` argument): the Spec is unconditional. -/
+
+/-- what `findBackend` returns is a path of the table that passed both tests -/
+theorem findBackend_some (hosts : List HHost) (ns pfx : Str) (p : HPath)
+    (h : findBackend hosts ns pfx = some p) :
+    p.ns = ns ∧ trimRightSlash p.path = pfx ∧ ∃ hh ∈ hosts, p ∈ hh.paths := by
+  induction hosts with
+  | nil => simp [findBackend] at h
+  | cons x xs ih =>
+    simp only [findBackend] at h
+    split at h
+    · rename_i q hq
+      cases h
+      have hc := List.find?_some hq
+      have hm := List.mem_of_find?_eq_some hq
+      simp only [oauthCandidate, Bool.and_eq_true, beq_iff_eq] at hc
+      exact ⟨hc.2, hc.1, x, List.mem_cons_self, hm⟩
+    · obtain ⟨a, b, hh, hm, hp⟩ := ih h
+      exact ⟨a, b, hh, List.mem_cons_of_mem _ hm, hp⟩
+
+/-- **oauth_backend_same_namespace** (all host/path tables, in every iteration order, all
+namespaces and prefixes): the lookup only returns a backend of the declaring namespace -/
+theorem oauth_backend_same_namespace (hosts : List HHost) (ns pfx : Str) (p : HPath)
+    (h : findBackend hosts ns pfx = some p) : p.ns = ns :=
+  (findBackend_some hosts ns pfx p h).1
+
+/-- the lookup is a function of the declaring namespace's own paths only: it is `find?` over them -/
+theorem findBackend_eq_find_ownPaths (hosts : List HHost) (ns pfx : Str) :
+    findBackend hosts ns pfx = (ownPaths ns hosts).find? (fun p => trimRightSlash p.path == pfx) := by
+  induction hosts with
+  | nil => simp [findBackend, ownPaths]
+  | cons x xs ih =>
+    have hx : (x.paths.filter (·.ns == ns)).find? (fun p => trimRightSlash p.path == pfx)
+        = x.paths.find? (oauthCandidate ns pfx) := by
+      rw [List.find?_filter]
+      congr 1
+      funext p
+      simp only [oauthCandidate]
+      cases (p.ns == ns) <;> cases (trimRightSlash p.path == pfx) <;> simp
+    have ho : ownPaths ns (x :: xs) = x.paths.filter (·.ns == ns) ++ ownPaths ns xs := by
+      simp [ownPaths]
+    rw [ho, List.find?_append, hx, ← ih]
+    simp only [findBackend]
+    cases x.paths.find? (oauthCandidate ns pfx) <;> simp
+
+theorem ownPaths_removeForeign (ns : Str) (hosts : List HHost) :
+    ownPaths ns (removeForeign ns hosts) = ownPaths ns hosts := by
+  induction hosts with
+  | nil => rfl
+  | cons x xs ih =>
+    simp only [ownPaths, removeForeign, List.map_cons, List.flatMap_cons] at ih ⊢
+    rw [ih, List.filter_filter]
+    simp
+
+/-- **oauth_independent_of_foreign**: removing every path (hence every Service behind a path) of
+the other namespaces does not change what the lookup returns -/
+theorem oauth_independent_of_foreign (hosts : List HHost) (ns pfx : Str) :
+    findBackend (removeForeign ns hosts) ns pfx = findBackend hosts ns pfx := by
+  rw [findBackend_eq_find_ownPaths, findBackend_eq_find_ownPaths, ownPaths_removeForeign]
+
+/-- noninterference of the lookup: two tables with the same own paths give the same answer,
+whatever other namespaces declare on the same or on other hostnames -/
+theorem oauth_lookup_noninterference (t t' : List HHost) (ns pfx : Str)
+    (h : ownPaths ns t = ownPaths ns t') : findBackend t ns pfx = findBackend t' ns pfx := by
+  rw [findBackend_eq_find_ownPaths, findBackend_eq_find_ownPaths, h]
+
+theorem findBackend_none_iff (hosts : List HHost) (ns pfx : Str) :
+    findBackend hosts ns pfx = none ↔ ∀ h ∈ hosts, ∀ p ∈ h.paths, oauthCandidate ns pfx p = false := by
+  induction hosts with
+  | nil => simp [findBackend]
+  | cons x xs ih =>
+    simp only [findBackend]
+    cases hx : x.paths.find? (oauthCandidate ns pfx) with
+    | some q =>
+      simp only [List.mem_cons, forall_eq_or_imp, false_iff, not_and, reduceCtorEq]
+      intro hall
+      have := hall q (List.mem_of_find?_eq_some hx)
+      rw [List.find?_some hx] at this
+      exact absurd this (by simp)
+    | none =>
+      simp only [List.mem_cons, forall_eq_or_imp]
+      rw [ih]
+      constructor
+      · intro h
+        refine ⟨?_, h⟩
+        intro p hp
+        have := List.find?_eq_none.1 hx p hp
+        simpa using this
+      · exact fun h => h.2
+
+/-- `Hosts().Items()` is a Go map: whether a proxy is found does not depend on the iteration order
+(WHICH of several proxies of the namespace is taken does; each of them passes the namespace test) -/
+theorem oauth_found_order_irrelevant (hosts hosts' : List HHost) (ns pfx : Str)
+    (hperm : hosts.Perm hosts') :
+    (findBackend hosts ns pfx).isSome = (findBackend hosts' ns pfx).isSome := by
+  have hiff : findBackend hosts ns pfx = none ↔ findBackend hosts' ns pfx = none := by
+    rw [findBackend_none_iff, findBackend_none_iff]
+    constructor
+    · intro H h hm; exact H h (hperm.mem_iff.2 hm)
+    · intro H h hm; exact H h (hperm.mem_iff.1 hm)
+  cases h1 : findBackend hosts ns pfx <;> cases h2 : findBackend hosts' ns pfx <;> simp_all
+
+/-- **the site** (all tables, all configurations of the path): an auth backend configured by
+`oauth` belongs to the namespace of the annotated object -/
+theorem oauth_site_same_namespace (hosts : List HHost) (src : Str) (c : OAuthCfg) (p : HPath) (pfx : Str)
+    (h : buildOAuth hosts src c = .proxy p pfx) : p.ns = src := by
+  simp only [buildOAuth] at h
+  split at h
+  · simp at h
+  · split at h
+    · simp at h
+    · split at h
+      · simp at h
+      · split at h
+        · simp at h
+        · split at h
+          · simp at h
+          · rename_i q hq
+            simp only [OAuthOut.proxy.injEq] at h
+            rw [← h.1]
+            exact oauth_backend_same_namespace hosts src _ q hq
+
+/-- the Spec of the site holds on every output of the model -/
+theorem oauth_spec_holds (hosts : List HHost) (src : Str) (c : OAuthCfg) :
+    oauthSpec src (buildOAuth hosts src c) = true := by
+  cases h : buildOAuth hosts src c with
+  | proxy p pfx => simp [oauthSpec, oauth_site_same_namespace hosts src c p pfx h]
+  | _ => rfl
+
+/-- **noninterference of the site**: the whole outcome (deny / proxy / kept / untouched, and
+which proxy) is the same in two worlds whose host/path tables agree on namespace `src`'s paths -/
+theorem oauth_site_noninterference (t t' : List HHost) (src : Str) (c : OAuthCfg)
+    (h : ownPaths src t = ownPaths src t') : buildOAuth t src c = buildOAuth t' src c := by
+  simp only [buildOAuth, oauth_lookup_noninterference t t' src _ h]
+
+/-- … in particular with and without everything the other namespaces declared -/
+theorem oauth_site_independent_of_foreign (hosts : List HHost) (src : Str) (c : OAuthCfg) :
+    buildOAuth (removeForeign src hosts) src c = buildOAuth hosts src c :=
+  oauth_site_noninterference _ _ src c (ownPaths_removeForeign src hosts)
+
+/-- hosts of the witnesses: `app.local` is declared by both namespaces (`/` by a, `/oauth2` by b),
+`login.local` holds namespace a's own proxy -/
+def hShared : HHost :=
+  { hostname := "app.local".toList,
+    paths := [⟨"/oauth2".toList, ['b'], "proxy".toList⟩, ⟨['/'], ['a'], "app".toList⟩] }
+def hOwn : HHost :=
+  { hostname := "login.local".toList, paths := [⟨"/oauth2/".toList, ['a'], "proxy".toList⟩] }
+def cfgOAuth : OAuthCfg := { oauth := some sOAuth2Proxy }
+
+/-- non-vacuity: the lookup finds namespace a's own proxy (on another hostname, declared with a
+trailing slash), ignores namespace b's one on the protected path's hostname, denies when the
+namespace has none, follows `oauth-uri-prefix`, and the other branches of the site are reachable -/
+example :
+    buildOAuth [hShared, hOwn] ['a'] cfgOAuth = .proxy ⟨"/oauth2/".toList, ['a'], "proxy".toList⟩ sOAuth2Path ∧
+    buildOAuth [hOwn, hShared] ['a'] cfgOAuth = .proxy ⟨"/oauth2/".toList, ['a'], "proxy".toList⟩ sOAuth2Path ∧
+    buildOAuth [hShared] ['a'] cfgOAuth = .deny ∧
+    buildOAuth [hShared] ['b'] cfgOAuth = .proxy ⟨"/oauth2".toList, ['b'], "proxy".toList⟩ sOAuth2Path ∧
+    buildOAuth [hShared, hOwn] ['a'] { cfgOAuth with uriPrefix := some "/auth2/".toList } = .deny ∧
+    buildOAuth [hShared, hOwn] ['a'] { oauth := some "other".toList } = .deny ∧
+    buildOAuth [hShared, hOwn] ['a'] { cfgOAuth with authURL := true } = .kept ∧
+    buildOAuth [hShared, hOwn] ['a'] { oauth := none } = .untouched := by
+  refine ⟨?_, ?_, ?_, ?_, ?_, ?_, ?_, ?_⟩ <;> decide
+
+/-- SEEDED VARIANT C09e (`findBackendSeeded`: the protected path's hostname first, without the
+namespace test): namespace a's path gets namespace b's Service as its auth backend with every key
+at deny; without b's path it is denied — the result depends on a foreign object; and a's own proxy
+on another hostname does not help.  The code's lookup on the same tables, for comparison.
+Replay of the corpus: `C09 oauth ing p - b:h0:h2f6f6175746832:proxy 00000 0`
+(signature `foreign-service-used:oauth`). -/
+theorem oauth_seeded_picks_foreign :
+    buildOAuthSeeded [hShared] ['a'] "app.local".toList cfgOAuth
+      = .proxy ⟨"/oauth2".toList, ['b'], "proxy".toList⟩ sOAuth2Path ∧
+    oauthSpec ['a'] (buildOAuthSeeded [hShared] ['a'] "app.local".toList cfgOAuth) = false ∧
+    buildOAuthSeeded (removeForeign ['a'] [hShared]) ['a'] "app.local".toList cfgOAuth = .deny ∧
+    buildOAuthSeeded [hOwn, hShared] ['a'] "app.local".toList cfgOAuth
+      = .proxy ⟨"/oauth2".toList, ['b'], "proxy".toList⟩ sOAuth2Path ∧
+    buildOAuth [hShared] ['a'] cfgOAuth = .deny ∧
+    buildOAuth (removeForeign ['a'] [hShared]) ['a'] cfgOAuth = .deny := by
+  refine ⟨?_, ?_, ?_, ?_, ?_, ?_⟩ <;> decide
+
 /-! ### facts regenerated from the Go source -/
 
 set_option maxRecDepth 10000 in
@@ -342,7 +532,9 @@ validateAllowDeny have the modelled shape; THE TABLE of reference sites (all of 
 annotated object's namespace and the raw value); the cache is asked before Userlists().Find; the
 auth-url permission check precedes FindBackend; a certificate taken from a file is parsed; the
 ingress converter (which applies the dynamic config in its constructor) is created before any
-converter runs. -/
+converter runs; the oauth lookup `findBackend` is two nested loops (hosts, paths of the host) with ONE
+return under the test `trimmed path == prefix && path.Backend.Namespace == namespace`, called once with
+the annotation's namespace and the trimmed prefix. -/
 theorem facts_c09 :
     Facts.c09GetterPermission =
       ["GetService: defaultNamespace, \"service\", serviceName, c.dynconfig.CrossNamespaceServices",
@@ -383,6 +575,14 @@ theorem facts_c09 :
     Facts.c09AuthURLCheck =
       ["url.Source != nil && namespace != url.Source.Namespace && !c.options.DynamicConfig.CrossNamespaceServices"] ∧
     Facts.c09AuthURLCheckBeforeFind = true ∧
+    Facts.c09FindBackend =
+      ["if strings.TrimRight(path.Path(), \"/\") == uriPrefix && path.Backend.Namespace == namespace",
+       "return &path.Backend", "return nil"] ∧
+    Facts.c09FindBackendRanges = ["c.haproxy.Hosts().Items()", "host.Paths"] ∧
+    Facts.c09OAuthFindBackendArgs = ["namespace, uriPrefix"] ∧
+    Facts.c09OAuthNamespaceAndPrefix =
+      ["uriPrefix := \"/oauth2\"", "uriPrefix = prefix.Value", "uriPrefix = strings.TrimRight(uriPrefix, \"/\")",
+       "namespace := oauth.Source.Namespace"] ∧
     Facts.c09ReadCertificateFileCalls = 1 ∧
     Facts.c09SyncOrder.getLast? = some "ingressConverter.Sync" ∧
     Facts.c09SyncOrder.head? = some "gatewayConverter.Sync" ∧
